@@ -264,10 +264,10 @@ def run(ctx):
             res = list(ex.map(rn.case, cases))
         out = ctx.path("traces", "durability.%d.ndjson" % wseed)
         with open(out, "w") as fh:
-            fh.write(json.dumps(ref) + "\n")
+            fh.write(json.dumps(ref, separators=(",", ":")) + "\n")
             for lines, summ in res:
                 for ln in lines:
-                    fh.write(json.dumps(ln) + "\n")
+                    fh.write(json.dumps(ln, separators=(",", ":")) + "\n")
                 summaries.append(summ)
         files.append(out)
         ncases += len(cases)
